@@ -68,6 +68,11 @@ type Runner struct {
 	StepGuard func(s Step) (Step, string)
 	// OnEdit, when set, is called after every successful local edit.
 	OnEdit func(r *Runner, p *Peer)
+	// NormaliseChunks: replicas are compared as content (adjacent text chunks
+	// with equal attributes merged), not as node boundaries. Only for
+	// properties that speak of content (C15): an undo revives a tombstone in
+	// place on one replica and re-creates it as one node on another.
+	NormaliseChunks bool
 	// MaxPeers bounds late attachers.
 	MaxPeers int
 	// AttachOpts returns the attach options for the i-th attaching peer.
@@ -613,6 +618,11 @@ func (r *Runner) CheckConverged() *Failure {
 		if first == nil {
 			first = p
 		} else if got, want := p.D.Marshal(), first.D.Marshal(); got != want {
+			if r.NormaliseChunks && NormaliseChunks(got) == NormaliseChunks(want) {
+				// same characters with the same attributes, cut into nodes differently
+				r.Ev["chunking_only_difference"]++
+				continue
+			}
 			return failf("DIVERGED", "c%d vs c%d (snapshot-fed: %v/%v):\n%s\n%s",
 				first.Idx, p.Idx, first.SnapshotFed, p.SnapshotFed, want, got)
 		}
@@ -799,6 +809,7 @@ type RunOpts struct {
 	OnEdit            func(r *Runner, p *Peer)
 	StepGuard         func(s Step) (Step, string)
 	TolerateUndoError bool
+	NormaliseChunks   bool
 	AfterQuiesc       func(r *Runner) *Failure
 	AttachOpts        func(i int) []interface{}
 	RecordCalls       bool
@@ -817,6 +828,7 @@ func Run(p Program, o RunOpts) (res Result) {
 	r.OnEdit = o.OnEdit
 	r.StepGuard = o.StepGuard
 	r.TolerateUndoError = o.TolerateUndoError
+	r.NormaliseChunks = o.NormaliseChunks
 	r.AttachOpts = o.AttachOpts
 	defer func() {
 		res.Hist = r.Hist
